@@ -9,7 +9,7 @@ def diagram(rng, n, kind=None, scale=1.0, allow_diag=True):
     if n == 0:
         return np.zeros((0, 2))
     if kind is None:
-        kind = rng.choice(["grid", "grid", "float", "diagheavy", "equal", "neartie", "cluster", "dyadic"])
+        kind = rng.choice(["grid", "grid", "float", "diagheavy", "equal", "neartie", "cluster", "dyadic", "h0", "decimal"])
     if kind == "grid":
         g = int(rng.integers(2, 7))
         b = rng.integers(0, g, size=n).astype(float)
@@ -37,6 +37,18 @@ def diagram(rng, n, kind=None, scale=1.0, allow_diag=True):
                 b[i] = np.nextafter(b[i], np.inf if ulps[i, 0] > 0 else -np.inf)
             for _ in range(abs(int(ulps[i, 1]))):
                 d[i] = np.nextafter(d[i], np.inf if ulps[i, 1] > 0 else -np.inf)
+    elif kind == "decimal":
+        # filtration values from a threshold sweep in steps of 0.1 / 0.05 / 0.01: not representable in binary, so differences and
+        # half-sums taken along different routes differ by an ulp
+        q = float(rng.choice([0.1, 0.05, 0.01]))
+        b = rng.integers(0, 30, n) * q
+        d = b + rng.integers(0 if allow_diag else 1, 40, n) * q
+    elif kind == "h0":
+        # every class born at the same value (Rips H0: all births 0), lifetimes from noise to long-lived
+        b = np.full(n, float(rng.choice([0.0, 0.0, 1.0, -2.0])))
+        d = b + (rng.random(n) ** 3) * 3 + (0 if allow_diag else 1e-3)
+        if rng.random() < 0.3:
+            d = b + rng.integers(0 if allow_diag else 1, 9, n) / 2.0
     elif kind == "cluster":
         c = int(rng.integers(1, 4))
         cb = rng.random(c) * 3; cd = cb + rng.random(c) * 2 + 0.2
@@ -133,8 +145,12 @@ def entangle(rng, A, B):
         return B
     for _ in range(int(rng.integers(1, 4))):
         i, j = int(rng.integers(0, len(A))), int(rng.integers(0, len(B)))
-        what = int(rng.integers(0, 4))
-        if what == 0:
+        what = int(rng.integers(0, 5))
+        if what == 4:
+            # concentric with an A point: same midpoint, shorter by a decimal amount on both sides
+            w = (A[i, 1] - A[i, 0]) * float(rng.choice([0.1, 0.2, 0.25, 0.4]))
+            B[j] = [A[i, 0] + w, A[i, 1] - w]
+        elif what == 0:
             B[j] = A[i]                                                       # shared point
         elif what == 1:
             B[j, 0] = A[i, 1]; B[j, 1] = max(B[j, 1], B[j, 0])                # B born when an A point dies
